@@ -289,14 +289,14 @@ instance (h : Params) (i : Instr) : Decidable (EncOk h i) := by
 
 /-! ## the sequence clause -/
 
-/-- what `sequences()` promises about one `LineSequence` **as the code is**: resuming it yields
-rows without `end_sequence` followed by exactly one `end_sequence` row, `end` is that row's
-address, `start` is the first row's address — or 0 when the end row is the only row (finding
-C04-2; the property asks for the first = end address there). -/
+/-- what `sequences()` promises about one `LineSequence`: resuming it yields rows without
+`end_sequence` followed by exactly one `end_sequence` row; `end` is that row's address and
+`start` is the address of the first row the sequence yields (the end row itself when it is the
+only one). -/
 def SeqOk (h : Params) (s : Seq) : Prop :=
   ∃ (rows : List Row) (last : Row),
     resume h s = rows.map Ev.row ++ [Ev.row last] ∧ last.endSequence = true ∧
     (∀ r ∈ rows, r.endSequence = false) ∧ s.end = last.address ∧
-    s.start = (match rows with | [] => 0 | r :: _ => r.address)
+    s.start = (match rows with | [] => last.address | r :: _ => r.address)
 
 end Gimli.Spec.Line
